@@ -249,6 +249,12 @@ fn check2(spec: &Curve2Spec, probes: &[Probe]) -> Verdict {
     let conv = |s: &engeom::CurveStation2| St::<2> { point: s.point(), dir: s.direction().into_inner(), index: s.index(), fraction: s.fraction(), length_along: s.length_along() };
     let mut vertex_hit = false;
     let mut ulp_nb = false;
+    // a fraction outside [0, 1], by however little, is a length outside [0, L]: no station
+    for f in [next_up(1.0), 1.0 + 4.0 * f64::EPSILON, -1e-17, -f64::EPSILON, 1.5, -0.5] {
+        if f * total > total || f * total < 0.0 {
+            ensure!(c.at_fraction(f).is_none(), "C01/at_fraction/outside_not_none", "at_fraction({f:e}) returned a station; {f:e} * L is outside [0, L]");
+        }
+    }
     for p in probes {
         let (l, is_frac, expect_none) = resolve(p, &lens);
         if is_frac {
@@ -343,6 +349,12 @@ fn check3(spec: &Curve3Spec, probes: &[Probe]) -> Verdict {
     let conv = |s: &engeom::CurveStation3| St::<3> { point: s.point(), dir: s.direction().into_inner(), index: s.index(), fraction: s.fraction(), length_along: s.length_along() };
     let mut vertex_hit = false;
     let mut ulp_nb = false;
+    // a fraction outside [0, 1], by however little, is a length outside [0, L]: no station
+    for f in [next_up(1.0), 1.0 + 4.0 * f64::EPSILON, -1e-17, -f64::EPSILON, 1.5, -0.5] {
+        if f * total > total || f * total < 0.0 {
+            ensure!(c.at_fraction(f).is_none(), "C01/at_fraction3/outside_not_none", "at_fraction({f:e}) returned a station; {f:e} * L is outside [0, L]");
+        }
+    }
     for p in probes {
         let (l, is_frac, expect_none) = resolve(p, &lens);
         if is_frac {
